@@ -612,6 +612,14 @@ func Generate(rng *rand.Rand, o Opts) *DAG {
 			n.Kind = Index
 			n.Desc.MediaType = MTOCIIndex
 			n.ArtifactType = b.artifactType()
+			if n.ArtifactType == "" && subject < 0 && n.Annotations == nil {
+				// a bare index (entries only) is byte-identical to the referrers index an oras client
+				// maintains for registries without the Referrers API whenever its entries are exactly the
+				// referrers of one subject; the client deletes superseded referrers indexes, so such a
+				// node would disappear from a registry source. Keep user indexes distinguishable (no
+				// random draw: the streams of all checks stay as they are).
+				n.Annotations = map[string]string{"org.test.index": fmt.Sprint(len(b.g.Nodes))}
+			}
 			idx := ocispec.Index{MediaType: MTOCIIndex, Manifests: ms, ArtifactType: n.ArtifactType, Annotations: n.Annotations}
 			idx.SchemaVersion = 2
 			if subject >= 0 {
